@@ -1,7 +1,7 @@
 /-
   Spec.Padding — the padding rules of the standards, on plain bit lists (`List Bool`, first bit first) and byte
   lists (`List Nat`, each < 256; a byte's most significant bit is its first bit on the wire).  Nothing of the
-  code's plumbing (no `Bits`, no iterator, no counters) is used here.
+  code's plumbing (no `Bits` objects, no iterator, no counters) is used here.
 
     zero      ISO/IEC 9797-1 padding method 1: the fewest 0 bits such that the length becomes a *positive*
               multiple of the block size B
@@ -17,50 +17,48 @@
 -/
 namespace Spec.Padding
 
-abbrev Bits := List Bool
-
-def zeros (n : Nat) : Bits := List.replicate n false
+def zeros (n : Nat) : List Bool := List.replicate n false
 
 /-- the fewest z ≥ 0 with `B ∣ len + z` -/
 def fill (B len : Nat) : Nat := (B - len % B) % B
 
 /-- bits of a byte, most significant first -/
-def byteBits (b : Nat) : Bits := (List.range 8).map fun j => b.testBit (7 - j)
+def byteBits (b : Nat) : List Bool := (List.range 8).map fun j => b.testBit (7 - j)
 
-def bytesToBits (m : List Nat) : Bits := m.flatMap byteBits
+def bytesToBits (m : List Nat) : List Bool := m.flatMap byteBits
 
 /-- value of at most 8 bits read most significant first, missing low bits are 0 -/
-def byteOfBits (bs : Bits) : Nat :=
+def byteOfBits (bs : List Bool) : Nat :=
   (List.range 8).foldl (fun acc j => 2 * acc + (bs.getD j false).toNat) 0
 
 /-- bit string to bytes: consecutive groups of 8 bits, the last byte zero-filled -/
-def bitsToBytes (bs : Bits) : List Nat :=
+def bitsToBytes (bs : List Bool) : List Nat :=
   (List.range ((bs.length + 7) / 8)).map fun k => byteOfBits ((bs.drop (8 * k)).take 8)
 
 /-- n-bit big-endian representation of `v mod 2^n` (most significant bit first) -/
-def lenBE (n v : Nat) : Bits := (List.range n).map fun i => v.testBit (n - 1 - i)
+def lenBE (n v : Nat) : List Bool := (List.range n).map fun i => v.testBit (n - 1 - i)
 
 /-- n-bit representation of `v mod 2^n`, least significant *byte* first, each byte most significant bit first
     (n a multiple of 8) -/
-def lenLE (n v : Nat) : Bits := (List.range n).map fun i => v.testBit (8 * (i / 8) + (7 - i % 8))
+def lenLE (n v : Nat) : List Bool := (List.range n).map fun i => v.testBit (8 * (i / 8) + (7 - i % 8))
 
-def zeroPad (B : Nat) (bits : Bits) : Bits :=
+def zeroPad (B : Nat) (bits : List Bool) : List Bool :=
   bits ++ zeros (if bits.length = 0 then B else fill B bits.length)
 
-def bitPad (B : Nat) (bits : Bits) : Bits :=
+def bitPad (B : Nat) (bits : List Bool) : List Bool :=
   bits ++ [true] ++ zeros (fill B (bits.length + 1))
 
-def mdPad (B w : Nat) (bits : Bits) : Bits :=
+def mdPad (B w : Nat) (bits : List Bool) : List Bool :=
   bits ++ [true] ++ zeros (fill B (bits.length + 1 + 2 * w)) ++ lenLE (2 * w) bits.length
 
-def shaPad (B w : Nat) (bits : Bits) : Bits :=
+def shaPad (B w : Nat) (bits : List Bool) : List Bool :=
   bits ++ [true] ++ zeros (fill B (bits.length + 1 + 2 * w)) ++ lenBE (2 * w) bits.length
 
 /-- word size and block size of BLAKE-h -/
 def blakeW (h : Nat) : Nat := if h > 256 then 64 else 32
 def blakeB (h : Nat) : Nat := if h > 256 then 1024 else 512
 
-def blakePad (h : Nat) (bits : Bits) : Bits :=
+def blakePad (h : Nat) (bits : List Bool) : List Bool :=
   bits ++ [true] ++ zeros (fill (blakeB h) (bits.length + 2 + 2 * blakeW h))
     ++ [decide (h = 256 ∨ h = 512)] ++ lenBE (2 * blakeW h) bits.length
 
@@ -109,7 +107,7 @@ def Scheme.blockBits (s : Scheme) (B : Nat) : Nat :=
   | _ => B
 
 /-- the padded bit string of the first `bits` of a message, block size B bits -/
-def pad (s : Scheme) (B : Nat) (bits : Bits) : Bits :=
+def pad (s : Scheme) (B : Nat) (bits : List Bool) : List Bool :=
   match s with
   | .no => bits
   | .zero => zeroPad B bits
@@ -121,7 +119,7 @@ def pad (s : Scheme) (B : Nat) (bits : Bits) : Bits :=
   | .blake h => blakePad h bits
 
 /-- the first L bits of a byte string -/
-def takeBits (L : Nat) (m : List Nat) : Bits := (bytesToBits m).take L
+def takeBits (L : Nat) (m : List Nat) : List Bool := (bytesToBits m).take L
 
 /-- what the property expects as the concatenation of the emitted blocks -/
 def padBytes (s : Scheme) (B : Nat) (m : List Nat) (L : Nat) : List Nat :=
